@@ -617,6 +617,62 @@ def _rooted_in_e2(b, op, parent_local):
     return False
 
 
+def _chain_spine_clause(prog, res, b, bi, t):
+    """The associative shortcut prints the right operand bare. That is only harmless for a chain of *one* operator: if the right
+    operand itself starts with another operator of the same level (`a * ((x / y) * c)`), the bare print `a * x / y * c` re-parses
+    as `((a * x) / y) * c` - a different value. The shortcut must therefore sit behind a test of the operand's left spine: a bool
+    function of the printer that receives the right operand's Binary node, reads its `e1` and `operator`, and recurses or loops."""
+    from .delegate import origin
+    from ..core import field_reads
+    from ..callgraph import body_refs
+    cfg = cfg_of(b)
+    key = f'chain-spine:{b.name}'
+    ok_edges = []
+    for bj, bl in enumerate(b.blocks):
+        t2 = bl.term
+        if bl.cleanup or t2[0] != 'call' or t2[4] is None or t2[5] is None:
+            continue
+        cb = prog.bodies.get(callee(t2)[0])
+        if cb is None or cb.crate != 'samlang_printer' or cb.locals[0].s != 'bool':
+            continue
+        if not any(o[0] in ('c', 'm') and any(e[0] == 'f' and e[4] == 'e2' for e in origin(b, o[1].local)[1]) for o in t2[3]):
+            continue
+        names = {k[2] if isinstance(k, tuple) and len(k) > 2 else None for k in field_reads(cb)}
+        fr = set()
+        for pl_key in field_reads(cb):
+            fr.add(pl_key)
+        reads = set()
+        for bl3 in cb.blocks:
+            for st in bl3.stmts:
+                if st[0] == 'a':
+                    pls = []
+                    rv = st[2]
+                    if rv[0] == 'ref':
+                        pls.append(rv[2])
+                    elif rv[0] in ('disc', 'copyderef'):
+                        pls.append(rv[1])
+                    for o in iter_operands_rvalue(rv):
+                        if o[0] in ('c', 'm'):
+                            pls.append(o[1])
+                    for pl in pls:
+                        for e in pl.proj:
+                            if e[0] == 'f':
+                                reads.add(e[4])
+        walks = cb.id in body_refs(cb) or bool(cfg_of(cb).back_edges())
+        if not ({'e1', 'operator'} <= reads and walks):
+            continue
+        for bk, bl4 in enumerate(b.blocks):
+            t4 = bl4.term
+            if not bl4.cleanup and t4[0] == 'switch' and t4[1][0] in ('c', 'm') and root_local(b, t4[1][1].local)[0] == t2[4].local:
+                ok_edges += [(bk, t4[3])] + [(bk, tg) for v, tg in t4[2] if v != 0]
+    if ok_edges and cfg.edges_dominate(ok_edges, bi):
+        res.ok(key, b.loc(t[7]), 'the bare print of the right operand is behind a test that walks the operand\'s left spine')
+    else:
+        res.violation(key, b.loc(t[7]), f'{b.name} prints the right operand of an associative operator without parentheses as soon as '
+                      f'the operand has the same operator, without looking at what the operand starts with: `a * ((x / y) * c)` is '
+                      f'printed as `a * x / y * c`, which re-parses as `((a * x) / y) * c` - for integers a different value')
+
+
 def run_paren_sink(prog, tier, repo):
     res = RuleResult('PAREN-SINK', 'C08: every sub-expression printed in an undelimited position (unary operand, binary operands, '
                      'lambda body, base of a member/call chain) goes through the precedence decider, never straight to the plain '
@@ -763,6 +819,7 @@ def run_paren_sink(prog, tier, repo):
                                    'precedence equals the parent\'s (the parser groups equal levels to the left)')
                             continue
                         if verdict == 'assoc-chain':
+                            _chain_spine_clause(prog, res, b, bi, t)
                             res.violation(f'regroup:{b.name}:associative-chain', b.loc(t[7]), f'{b.name} prints the right operand of a '
                                           f'binary expression without parentheses when it is a binary expression with the same '
                                           f'associative operator ({", ".join(sorted(ASSOC))}): `a + (b + c)` is printed as `a + b + c`, '
